@@ -582,6 +582,13 @@ func scfRandom(r *Rng, n int) []scfEv {
 		switch x := r.Intn(20); {
 		case x < 4:
 			b := scfRandB(r)
+			if b.Dead == 1 && b.TsMode == 1 {
+				// the IdKeeper forgets (source, time) tuples older than 86.4 s at once (id_keeper.go: a threshold
+				// of 60*60*24 in millisecond units), so two separately drawn expired bundles of one timestamp
+				// get the same ID; such bundles are outside C05 ("whose lifetime has not ended"): keep their
+				// timestamps apart (same-millisecond companions of one draw still share theirs)
+				b.Group = 10 + len(h)
+			}
 			if r.Intn(15) == 0 {
 				b.Local = 0
 			}
@@ -594,6 +601,13 @@ func scfRandom(r *Rng, n int) []scfEv {
 			nb++
 		case x < 7:
 			b := scfRandB(r)
+			if b.Dead == 1 && b.TsMode == 1 {
+				// the IdKeeper forgets (source, time) tuples older than 86.4 s at once (id_keeper.go: a threshold
+				// of 60*60*24 in millisecond units), so two separately drawn expired bundles of one timestamp
+				// get the same ID; such bundles are outside C05 ("whose lifetime has not ended"): keep their
+				// timestamps apart (same-millisecond companions of one draw still share theirs)
+				b.Group = 10 + len(h)
+			}
 			b.Local = 0
 			from := 1 + r.Intn(4)
 			if r.Intn(4) != 0 {
